@@ -1943,3 +1943,141 @@ func ruleScanStart(c *Ctx) {
 		c.Undecided("SCAN-START", "instance-count", token.NoPos, "no search for line endings found in the reader function")
 	}
 }
+
+// ---------------------------------------------------------------------------------------------
+// PAD-START: padNulls looks only at the bytes from `start` on.
+
+func rulePadStart(c *Ctx) {
+	c.Rule("PAD-START", "padNulls(b, start) is called again on a buffer whose bytes before start were padded by earlier calls (one call per read): zero bytes in front of start are padding, not input. Inside padNulls every examination of b's content — a call that reads a slice of b (nullCount, bytes.IndexByte, bytes.Count, …) and every loop that tests b[i] against zero — is therefore confined to indices from start on: the slice passed has start as its low bound, and the loop's guard compares its index with start. Looking at the whole buffer counts or re-expands padding of an earlier read (two NUL bytes arriving in different reads corrupt the text between them).")
+	p := c.P
+	fn := p.Func("padNulls")
+	if !c.NeedFunc("PAD-START", fn, "padNulls") {
+		return
+	}
+	if len(fn.Params) != 2 {
+		c.Undecided("PAD-START", "padNulls:signature", fn.Pos(), "expected padNulls(b, start)")
+		return
+	}
+	b, start := ssa.Value(fn.Params[0]), ssa.Value(fn.Params[1])
+	// values that alias b: b itself, re-slices with a nil or zero low bound, phis thereof, append(b[:cap]...)
+	aliasLow := map[ssa.Value]bool{} // alias whose index 0 is b's index 0
+	var isAlias func(v ssa.Value, d int) bool
+	isAlias = func(v ssa.Value, d int) bool {
+		if v == b {
+			return true
+		}
+		if d > 6 {
+			return false
+		}
+		switch x := v.(type) {
+		case *ssa.Slice:
+			return (x.Low == nil || isZero(x.Low)) && isAlias(x.X, d+1)
+		case *ssa.Phi:
+			for _, e := range x.Edges {
+				if !isAlias(e, d+1) {
+					return false
+				}
+			}
+			return true
+		case *ssa.Call:
+			if _, ok := isBuiltinCall(x, "append"); ok {
+				return isAlias(x.Call.Args[0], d+1)
+			}
+		}
+		return false
+	}
+	_ = aliasLow
+	fromStart := func(v ssa.Value) bool {
+		sl, ok := v.(*ssa.Slice)
+		if !ok || !isAlias(sl.X, 0) || sl.Low == nil {
+			return false
+		}
+		base, k := splitAdd(sl.Low)
+		return base == start && k >= 0
+	}
+	n := 0
+	// (a) reading calls
+	eachInstr(fn, func(in ssa.Instruction) {
+		call, ok := in.(*ssa.Call)
+		if !ok {
+			return
+		}
+		if _, isB := call.Call.Value.(*ssa.Builtin); isB {
+			return
+		}
+		for i, a := range call.Call.Args {
+			whole := isAlias(a, 0)
+			sl, isSl := a.(*ssa.Slice)
+			part := isSl && isAlias(sl.X, 0) && sl.Low != nil && !isZero(sl.Low)
+			if !whole && !part {
+				continue
+			}
+			n++
+			key := fmt.Sprintf("padNulls:%s#%d", calleeName(&call.Call), i)
+			c.Check(fromStart(a), "PAD-START", key, call.Pos(), "a function that reads the buffer is given bytes in front of start (already padded by an earlier call)")
+		}
+	})
+	// (b) loops that test b[i] against zero
+	for li, l := range naturalLoops(fn) {
+		tests := false
+		var idx ssa.Value
+		for blk := range l.body {
+			for _, in := range blk.Instrs {
+				bo, ok := in.(*ssa.BinOp)
+				if !ok || (bo.Op != token.EQL && bo.Op != token.NEQ) || !isZero(bo.Y) {
+					continue
+				}
+				if ld, ok := bo.X.(*ssa.UnOp); ok && ld.Op == token.MUL {
+					if ia, ok := ld.X.(*ssa.IndexAddr); ok && isAlias(ia.X, 0) {
+						tests = true
+						idx = ia.Index
+					}
+				}
+			}
+		}
+		if !tests {
+			continue
+		}
+		n++
+		key := fmt.Sprintf("padNulls:loop#%d", li+1)
+		// the loop guard (any If in the body with an exit edge) compares idx with start
+		guarded := false
+		for blk := range l.body {
+			iff := blockIf(blk)
+			if iff == nil {
+				continue
+			}
+			exits := !l.body[blk.Succs[0]] || !l.body[blk.Succs[1]]
+			if !exits {
+				continue
+			}
+			if bo, ok := iff.Cond.(*ssa.BinOp); ok {
+				strip := func(v ssa.Value) ssa.Value {
+					for d := 0; d < 4; d++ {
+						x, ok := v.(*ssa.BinOp)
+						if !ok || (x.Op != token.ADD && x.Op != token.SUB) {
+							break
+						}
+						if _, isC := constInt(x.Y); isC {
+							v = x.X
+							continue
+						}
+						if _, isC := constInt(x.X); isC && x.Op == token.ADD {
+							v = x.Y
+							continue
+						}
+						break
+					}
+					return v
+				}
+				if (strip(bo.X) == idx && strip(bo.Y) == start) || (strip(bo.Y) == idx && strip(bo.X) == start) {
+					guarded = true
+				}
+			}
+		}
+		c.Check(guarded, "PAD-START", key, l.header.Instrs[0].Pos(), "the loop that expands zero bytes is not bounded below by start: it re-expands padding of earlier calls")
+	}
+	if n < 2 {
+		c.Undecided("PAD-START", "instance-count", fn.Pos(), fmt.Sprintf("%d examinations of the buffer found in padNulls (a count and an expansion loop are expected)", n))
+	}
+}
